@@ -12,7 +12,7 @@ from ..pm import src
 from ..q import FA, attr_stores, call_name, compare_parts, conjuncts, const, guard_facts, ifs_on, is_self_attr, walk_no_nested
 from ..resolve import resolver
 
-TECHNIQUE = "R-PROV: the compared value is the recorded value (who-writes + canonical forms); R-DOM/R-ORDER on the loop guards, the iteration caps and the finalised short-circuits; R-SIB on the criterion definitions; call-graph check that no likelihood evaluation is reachable before the finalised guard; ESS family rule; extended-precision rule (shift degree); same-return rule; path-signature comparison of the criterion definitions with a reference implementation"
+TECHNIQUE = "R-PROV: the compared value is the recorded value (who-writes + canonical forms); R-DOM/R-ORDER on the loop guards, the iteration caps and the finalised short-circuits; R-SIB on the criterion definitions; call-graph check that no likelihood evaluation is reachable before the finalised guard; ESS family rule; extended-precision rule (shift degree); same-return rule; path-signature comparison of the criterion definitions with a reference implementation; loop-exit abstraction with per-path summaries for the finalise obligation"
 
 NS, INS = tables.NS, tables.INS
 
@@ -466,7 +466,7 @@ def _expand_props(prog, cls, e, depth=0):
     return X().visit(_copy.deepcopy(e))
 
 CLAIM = {
-    "text": "Decides that the value compared by each loop is the value recorded in the history and comes from the evidence state of the same iteration (standard: condition assigned only in consume_sample after state.increment with the documented form, appended to history['dlogZ']; importance: criterion := compute_stopping_criterion() after update_evidence and before update_history, list built by getattr over the configured criteria, history recorded by the same names); that the loop guards are the documented ones (while condition > tolerance strict, cap tested last; INS break test `reached_tolerance and iteration >= min_iteration` first, cap last; c <= t combined by any iff check_criteria=='any' else all); that finished runs short-circuit (first statement of both loops, finalise guarded / early-returning, finalised set on every path, no repopulation when finalised, remaining live points moved exactly once); and that each INS criterion is the documented expression (ratio, ratio_ns, ess, Z_err, fractional_error, log_dZ, evidence ratios). Criteria and tolerances are paired by position: the criteria are stored in the caller's order (outermost iteration over the caller's list), tolerances element-wise, count mismatch rejected. Every effective-sample-size implementation in the package (overrides included) is the log-space Kish form or a pure delegation (with C16.3); every exponential of a shift-degree-1 quantity in the INS integral state is taken in np.longdouble (C15.5; found and repaired the float64 evidence behind fractional_error); every return of a nested_sampling_loop hands back the same quantities (found and repaired the INS short-circuit).",
+    "text": "Decides that the value compared by each loop is the value recorded in the history and comes from the evidence state of the same iteration (standard: condition assigned only in consume_sample after state.increment with the documented form, appended to history['dlogZ']; importance: criterion := compute_stopping_criterion() after update_evidence and before update_history, list built by getattr over the configured criteria, history recorded by the same names); that the loop guards are the documented ones (while condition > tolerance strict, cap tested last; INS break test `reached_tolerance and iteration >= min_iteration` first, cap last; c <= t combined by any iff check_criteria=='any' else all); that finished runs short-circuit (first statement of both loops, finalise guarded / early-returning, finalised set on every path, no repopulation when finalised, remaining live points moved exactly once); and that each INS criterion is the documented expression (ratio, ratio_ns, ess, Z_err, fractional_error, log_dZ, evidence ratios). Criteria and tolerances are paired by position: the criteria are stored in the caller's order (outermost iteration over the caller's list), tolerances element-wise, count mismatch rejected. Every effective-sample-size implementation in the package (overrides included) is the log-space Kish form or a pure delegation (with C16.3); every exponential of a shift-degree-1 quantity in the INS integral state is taken in np.longdouble (C15.5; found and repaired the float64 evidence behind fractional_error); every return of a nested_sampling_loop hands back the same quantities (found and repaired the INS short-circuit). However the standard loop is left (test false, else clause, any break), a run whose tolerance has been reached is finalised before the function returns (C15.3).",
     "note": "Trajectories are not explored: 'stops at the first qualifying iteration' follows from the guard being evaluated every iteration, which is what is checked. Zero further likelihood evaluations on re-entry is decided as 'the finalised guard is the first statement'.",
 }
 
